@@ -139,10 +139,11 @@ impl Monitor for C07Mon {
         );
         // (stay id, state) of the last scheduling per machine
         let mut sched: Vec<Option<(u64, usize)>> = vec![None; m];
-        // stay of each machine when its current outermost transition began: an action
-        // decided there may be scheduled after a CounterZero round trip re-entered the
-        // state with a fresh limit (the code judges limits before the counter update)
-        let mut outer: Vec<Option<Stay>> = vec![None; m];
+        // every stay of each machine in which a transition of this call was evaluated:
+        // the code judges limits on the entered state *before* the counter update, so an
+        // action decided in one stay may be scheduled after a CounterZero round trip has
+        // left and re-entered the state with a fresh limit
+        let mut outer: Vec<Vec<Stay>> = vec![vec![]; m];
         let log = &out.log;
         let mut i = 0;
         // has the completion's own transition been evaluated yet?
@@ -212,9 +213,9 @@ impl Monitor for C07Mon {
             let Some(r) = log.get(i) else { break };
             match r {
                 Rec::Deliver { mi, event } => {
-                    if *mi < m && *event != Event::CounterZero {
-                        // the stay in which this (outermost) transition is evaluated
-                        outer[*mi] = Some(self.st[*mi].clone());
+                    if *mi < m {
+                        // a stay in which a transition of this call is evaluated
+                        outer[*mi].push(self.st[*mi].clone());
                     }
                     if Some(*mi) == target
                         && *event == cev
@@ -241,6 +242,7 @@ impl Monitor for C07Mon {
                         let prev = self.st[*mi].state;
                         self.enter(case, *mi, *state, *limit);
                         stats.probe_if("reenter_after_leave", prev != *state);
+                        outer[*mi].push(self.st[*mi].clone());
                     }
                 }
                 Rec::Ended { mi } => {
@@ -256,7 +258,7 @@ impl Monitor for C07Mon {
                         let s = &self.st[*mi];
                         let lim = action_has_limit(&case.machines[*mi].states[*state].action);
                         let forbidden_now = lim && *state == s.state && s.limited && s.done >= s.l;
-                        let allowed_by_outer = outer[*mi].as_ref().map_or(false, |o| {
+                        let allowed_by_outer = outer[*mi].iter().any(|o| {
                             o.id != s.id && o.state == *state && (!o.limited || o.done < o.l)
                         });
                         stats.probe_if("scheduled_after_round_trip_on_outer_stay", forbidden_now && allowed_by_outer);
